@@ -13,11 +13,13 @@ def run(cmd, cwd, timeout=600):
         return 124, "TIMEOUT"
 def main():
     want = [a for a in sys.argv[1:] if not a.startswith('--')]
-    base = '/tmp/seed2' if '--round2' in sys.argv else '/tmp/seed'
+    base = '/tmp/seed3' if '--round3' in sys.argv else ('/tmp/seed2' if '--round2' in sys.argv else '/tmp/seed')
     for d in sorted(glob.glob(base + '/C*-out/[AB]')):
         pid = re.search(r'(C\d+)-out', d).group(1); var = os.path.basename(d)
         if base.endswith('seed2'):
             var = {'A': 'C', 'B': 'D'}[var]
+        if base.endswith('seed3'):
+            var = {'A': 'E', 'B': 'F'}[var]
         if want and pid not in want: continue
         name = "%s-%s" % (pid, var)
         out = os.path.join('/verif/seeded', name)
@@ -33,12 +35,16 @@ def main():
             placed = []
             runs = []
             for demo in demos:
-                m = re.search(r'((?:[\w./-]+/)?)' + re.escape(demo), demotxt.replace('/tmp/seed2', '').replace('/tmp/seed', ''))
+                m = re.search(r'((?:[\w./-]+/)?)' + re.escape(demo), demotxt.replace('/tmp/seed3', '').replace('/tmp/seed2', '').replace('/tmp/seed', ''))
                 sub = ''
                 for mm in re.finditer(r'((?:internal/(?:client|server)|internal)/)' + re.escape(demo), demotxt):
                     sub = mm.group(1); break
                 src = open(os.path.join(d, demo)).read()
                 pk = re.search(r'^package (\w+)', src, re.M).group(1)
+                if pk.endswith('_test'): pk = pk[:-5]
+                mcmd = re.search(r"go test[^\n]*?\s\./(internal(?:/\w+)?)/?\s*$", demotxt, re.M)
+                if mcmd and pk in ('client', 'server', 'internal'):
+                    sub = mcmd.group(1) + '/'
                 if not sub:
                     sub = {'client': 'internal/client/', 'server': 'internal/server/', 'internal': 'internal/'}.get(pk, '')
                 placed.append((demo, sub))
